@@ -345,7 +345,7 @@ func TestC15(t *testing.T) {
 		}
 	})
 	rec.Exhaustive("placements")
-	rec.Suite("tls-stalled-handshake", 4*rec.N(2, 20), func(c *ev.Case) {
+	rec.Suite("tls-stalled-handshake", 4*rec.N(2, 100), func(c *ev.Case) {
 		pos := c.I % 4
 		c.Class("K=3/fault=tls-stalled-handshake/pos=%d", pos)
 		leak := runBubbleWD(t, rec, c, 60*time.Second, func() { runC15TLS(c, ctx, pos) })
@@ -353,7 +353,7 @@ func TestC15(t *testing.T) {
 			c.Fail(ev.Sig{"op": "bubble-leak", "faults": "tls-stalled-handshake"}, nil, nil, "goroutines left blocked after the scenario: %s", leak)
 		}
 	})
-	rec.Suite("two-faults-random", rec.N(600, 30000), func(c *ev.Case) {
+	rec.Suite("two-faults-random", rec.N(600, 400000), func(c *ev.Case) {
 		r := c.R
 		sc := c15Scenario{K: []int{2, 3, 5}[r.IntN(3)], perConn: 1 + r.IntN(5)}
 		nf := 1 + r.IntN(2)
